@@ -56,6 +56,8 @@ type RenderedHole struct {
 	Value      any
 	TmplOff    int
 	ProdIndex  int // model production being rendered (-1 outside the production range)
+	Range      *jRange // innermost enclosing {{range}} (nil at top level)
+	Iter       int     // iteration number of that range
 }
 
 type modelProd struct {
@@ -648,7 +650,8 @@ type renderer struct {
 	buf      strings.Builder
 	fc       fieldChecker
 	prodIdx  int
-	progress int
+	ranges   []*jRange
+	iters    []int
 }
 
 func (r *renderer) nodes(ns []jNode, env *jEnv) error {
@@ -667,7 +670,12 @@ func (r *renderer) nodes(ns []jNode, env *jEnv) error {
 			}
 			start := r.buf.Len()
 			r.buf.WriteString(s)
-			r.ti.Holes = append(r.ti.Holes, &RenderedHole{Tmpl: r.tmpl, Src: x.Src, Expr: x.Expr, Text: s, Start: start, End: r.buf.Len(), Value: v, TmplOff: x.Off, ProdIndex: r.prodIdx})
+			h := &RenderedHole{Tmpl: r.tmpl, Src: x.Src, Expr: x.Expr, Text: s, Start: start, End: r.buf.Len(), Value: v, TmplOff: x.Off, ProdIndex: r.prodIdx}
+			if len(r.ranges) > 0 {
+				h.Range = r.ranges[len(r.ranges)-1]
+				h.Iter = r.iters[len(r.iters)-1]
+			}
+			r.ti.Holes = append(r.ti.Holes, h)
 		case *jSet:
 			v, err := jEval(x.Expr, env, r.fc)
 			if err != nil {
@@ -719,7 +727,12 @@ func (r *renderer) nodes(ns []jNode, env *jEnv) error {
 				if o, ok := el.(*jObj); ok && o.Kind == "prod" {
 					r.prodIdx = o.Tag.(*modelProd).Index
 				}
-				if err := r.nodes(x.Body, ce); err != nil {
+				r.ranges = append(r.ranges, x)
+				r.iters = append(r.iters, i)
+				err := r.nodes(x.Body, ce)
+				r.ranges = r.ranges[:len(r.ranges)-1]
+				r.iters = r.iters[:len(r.iters)-1]
+				if err != nil {
 					return err
 				}
 				r.prodIdx = saved
